@@ -156,6 +156,14 @@ func runCheck(id, tier, repo, verif string, seed, jobs int) int {
 	}
 	o.Kinds = propKinds[id]
 	findings := loadFindings(verif)
+	o.SkipRetry = func(fn, ob string) bool {
+		for _, k := range findings {
+			if k.Status == "known" && k.Property == id && k.Obligation != "" && baseName(ob) == k.Obligation && strings.HasSuffix(fn, k.Function) {
+				return true
+			}
+		}
+		return false
+	}
 	var fails []failure
 	var rr *RunResult
 	nFuncs, nLemmas := 0, 0
